@@ -42,12 +42,13 @@ class State:
         if my_predicates != other_predicates:
             return False
 
+        # Values are compared as numbers (the printed forms of 0.0 and -0.0 differ although the values are equal).
         my_numeric_expressions = {
-            expression.state_representation
+            (expression.state_representation.rpartition(" ")[0], expression.value)
             for expression in self.state_fluents.values()
         }
         other_numeric_expressions = {
-            expression.state_representation
+            (expression.state_representation.rpartition(" ")[0], expression.value)
             for expression in other.state_fluents.values()
         }
 
